@@ -161,6 +161,17 @@ def gen_c08(rnd, n, thorough=False):
             lines += fill_ops(rnd, 'd/a.wsp', other, m, xff, density=0.3, inconsistent=False)
         wk, frm, until = window(rnd, layout)
         arch = rnd.pick([-1, -1, -1] + list(range(k)) + [k, -2])
+        if destkind not in ('cascade', 'mismatch') and rnd.chance(0.2):
+            # the source was written by a clock a little ahead of the copier's: it holds points stamped with the
+            # slot after the current one; a window inside the current slot of an archive compares exactly that slot
+            extra_src = []
+            for a_, (S_, N_) in enumerate(layout):
+                if rnd.chance(0.7):
+                    extra_src.append("many s/a.wsp %d @+%d 1 @+%d %016x" % (a_, S_, S_, fbits(float(40 + a_))))
+            if extra_src:
+                lines = lines + ["open s/a.wsp"] + extra_src + ["sync s/a.wsp", "drop s/a.wsp"]
+                if rnd.chance(0.7):
+                    wk, frm, until = 'current_slot', '@-1', rnd.pick(['0', '@'])
         if destkind == 'cascade':
             wk, frm, until, arch = 'default', '0', '0', -1
         copynan = rnd.pick([0, 1])
@@ -476,7 +487,7 @@ def gen_c11(rnd, n, thorough=False):
         k = len(layout)
         m, xff = rnd.pick(METHODS), rnd.pick([0, 0x3f000000])
         nfiles = rnd.pick([1, 2, 3])
-        items = rnd.pick([['i1'], ['i1', 'i2'], ['a.b'], ['a.b', 'a.c']])      # dotted item = nested directory a/b
+        items = rnd.pick([['i1'], ['i1', 'i2'], ['a.b'], ['a.b', 'a.c'], ['web+api', 'x&y'], ['q=1']])      # dotted item = nested directory a/b; names special in a query
         itempat = 'a/*' if items[0].startswith('a.') else '*'
         lines = item_tree(rnd, layout, m, xff, items, nfiles, rnd.pick([0.4, 0.9]))
         destkind = rnd.pick(['absent', 'empty', 'partial', 'stale', 'mismatch', 'missing_src', 'cascade', 'value_equal'])
@@ -513,6 +524,8 @@ def gen_c11(rnd, n, thorough=False):
             wk, frm, until, arch = 'default', '0', '0', -1
         srcpat = 'q*.wsp' if destkind == 'missing_src' else '*.wsp'
         common = "base=s item=" + itempat + " src=%s destbase=d dest=sum.wsp from=%s until=%s archive=%d spell=%d" % (srcpat, frm, until, arch, rnd.pick([0, 0, 1, 2, 3, 4]))
+        if rnd.chance(0.25) or items[0] in ('web+api', 'q=1'):
+            common += " remote=1 deep=1"          # the sources summed by a server (one serving exactly the base: item names are the same)
         lines.append("clisumdiff " + common)
         lines.append("clisumcopy " + common + " m=%d x=%08x layout=%s" % (m, xff, lay_csv(layout)))
         for it in items:
@@ -568,6 +581,11 @@ def gen_c18(rnd, n, thorough=False):
             continue
         lname = rnd.pick(list(CLI_LAYOUTS))
         layout = CLI_LAYOUTS[lname]
+        if rnd.chance(0.15):
+            # retentions and steps whose text needs care: whole years that are also whole weeks (7y = 365w), days
+            # that are whole weeks, hours that are whole days, seconds that are nothing rounder
+            lname, layout = rnd.pick([('weeks_7y', [(86400, 7), (604800, 365)]), ('weeks_14y', [(604800, 730)]), ('days_2y', [(3600, 24), (86400, 730)]),
+                                      ('hours_3d', [(60, 60), (3600, 72)]), ('odd_seconds', [(7, 11), (77, 13)]), ('year_steps', [(86400, 365), (31536000, 3)])])
         k = len(layout)
         m, xff = rnd.pick(METHODS), rnd.pick(XFF_VALID)
         vname = rnd.pick(['a.wsp', 'a.wsp', 'cpu+io.wsp', 'rx&tx.wsp', 'q=1.wsp'])
@@ -646,6 +664,13 @@ def gen_c20(rnd, n, thorough=False):
     for mx in ['010', '0100', '0777', '08', '0o17', '0O17', '0b101', '0x10', '0X1f', '+7', '-0', '00', '0', '10', '0x', '0b2', '1e3', ' 7', '7 ', '']:
         ll.append('cliargs generate %s' % ' '.join((a.encode().hex() or '-') for a in ['-dest', 'g.wsp', '-agg-method', 'sum', '-retentions', '1s:1m', '-max', mx]))
     cases.append({'id': 'c20-maxtext', 'lines': ll, 'tags': {'levels': 0, 'fill': 0, 'max': 0, 'args': 1}})
+    # the xFilesFactor arrives as text: the header gets the float32 nearest to the number written, also for long
+    # literals that lie next to the midpoint of two float32 values
+    ll = []
+    for xs in ['0.5000000298023224', '0.2500000149011611938476562501', '0.7500000298023223876953126', '0.50000002980232238769531250000001', '0.5000000298023223876953125',
+               '0.3', '0.1', '1e-46', '1.00000001', '0.99999997', '0.999999970197677612304687500001', '1e-45', '7.006492321624085e-46', '7.0064923216240862e-46']:
+        ll.append('cliargs generate %s' % ' '.join((a.encode().hex() or '-') for a in ['-dest', 'g.wsp', '-agg-method', 'sum', '-retentions', '1s:1m', '-x-files-factor', xs]))
+    cases.append({'id': 'c20-xfftext', 'lines': ll, 'tags': {'levels': 0, 'fill': 0, 'max': 0, 'args': 1}})
     # archives of 4 GiB and more (the file is sparse): the file is as long as its header says
     gl = []
     for lay in [[(1, 378000000)], [(1, 86400), (5, 378432000)], [(1, 357913941)], [(1, 357913942)], [(2, 357913943)], [(1, 100), (2, 715827882)], [(1, 10), (5, 6)]]:
@@ -931,6 +956,14 @@ def gen_c16(rnd, n, thorough=False):
         dense = lname == 'big'
         lines = fill_ops(rnd, 's/i1/a.wsp', layout, m, xff, density=1.0 if dense else 0.5, inconsistent=not dense)
         lines += fill_ops(rnd, 's/i1/b.wsp', layout, m, xff, density=0.5, inconsistent=False)
+        oddcount = rnd.chance(0.3)
+        if oddcount:
+            # an item whose files differ in the number of points only: never a sum, whatever the window
+            lines += fill_ops(rnd, 's/i3/a.wsp', layout, m, xff, density=0.5, inconsistent=False)
+            lines += fill_ops(rnd, 's/i3/b.wsp', [(s_, nn + rnd.pick([1, 7])) for s_, nn in layout], m, xff, density=0.5, inconsistent=False)
+            for _q in range(2):
+                wq = rnd.pick([('@-%d' % rnd.randint(2, layout[0][0] * layout[0][1] - 1), '0'), ('@+5', '@+9'), ('0', '0'), ('@-3', '@-1')])
+                lines.append("clisum base=s item=i3 src=*.wsp from=%s until=%s archive=%d header=1" % (wq[0], wq[1], rnd.pick([-1, 0])))
         stray = rnd.chance(0.5)
         if stray:
             # a plain file next to the item directories: an item pattern that matches it names an item without files
@@ -1110,7 +1143,7 @@ ARG_VALUES = {
     'dest': ['b.wsp', 'sum.wsp', 'sub/c.wsp', '', '*.wsp'],
     'item': ['i*', 'a.b', '*', ''],
     'agg-method': ['sum', 'average', 'last', 'max', 'min', 'first', 'mix', 'percentile', 'bogus', 'Sum', '', 'avg'],
-    'x-files-factor': ['0.5', '0', '1', '1.5', '-0.1', 'NaN', 'abc', '1e-3', '0x1p-1', '+0.25', '.5', '1_0', '', '-0', '1.0000001', '1.00000001', 'Inf', '1e-50'],
+    'x-files-factor': ['0.5', '0', '1', '0.5000000298023224', '0.2500000149011611938476562501', '0.7500000298023223876953126', '0.10000000149011612', '0.30000001192092896', '1.5', '-0.1', 'NaN', 'abc', '1e-3', '0x1p-1', '+0.25', '.5', '1_0', '', '-0', '1.0000001', '1.00000001', 'Inf', '1e-50'],
     'retentions': ['1s:1m', '1m:1h,1h:1d', '1s:5s,5s:1m,1m:1h', '1s:1m,1m:30s', '', '1s:49711d', '1s:137y', '2s:7102w', '1s:1m,2s:49711d', '1s:1193047h', '1s:71582789m', '1s:24856d', '1s', '60:1440', '1s:1m,', '2s:1m,3s:2m', '1m:1y'],
     'from': ['2020-01-01T00:00:00Z', '1970-01-01T00:00:00Z', '2106-02-07T06:28:15Z', '2106-02-07T06:28:16Z', '2020-13-01T00:00:00Z', '2020-01-01', '',
              '2020-01-01T0:00:00Z', '2020-01-01T00:00:00.000Z', '2020-01-01T00:00:00.5Z', '2021-06-30T12:00:00Z', '1969-12-31T23:59:59Z', '2020-02-30T00:00:00Z', '0'],
